@@ -289,6 +289,8 @@ type CCase struct {
 	Full   bool  `json:"full"`
 	Procs  int   `json:"procs"`
 	Reps   int   `json:"reps"`
+	// Separate: every caller drains its own channel (each holding Fill values); the calls only overlap in time.
+	Separate bool `json:"separate,omitempty"`
 }
 
 func RunQueuedConc(c CCase) pbt.Outcome {
@@ -303,6 +305,20 @@ func RunQueuedConc(c CCase) pbt.Outcome {
 		if c.Closed {
 			close(ch)
 		}
+		chOf := func(i int) chan int { return ch }
+		if c.Separate {
+			own := make([]chan int, len(c.Limits))
+			for k := range own {
+				own[k] = make(chan int, c.Cap)
+				for i := 1; i <= c.Fill; i++ {
+					own[k] <- i * 7
+				}
+				if c.Closed {
+					close(own[k])
+				}
+			}
+			chOf = func(i int) chan int { return own[i] }
+		}
 		results := make([][]int, len(c.Limits))
 		var wg sync.WaitGroup
 		var gate atomic.Int32
@@ -316,6 +332,7 @@ func RunQueuedConc(c CCase) pbt.Outcome {
 				for int(gate.Load()) < len(c.Limits) {
 					runtime.Gosched()
 				}
+				ch := chOf(i)
 				if c.Full {
 					buf := make([]int, lim)
 					n := chans.RecvQueuedFull(ch, buf)
@@ -327,13 +344,20 @@ func RunQueuedConc(c CCase) pbt.Outcome {
 			}()
 		}
 		isDone := func() bool { return int(finished.Load()) == len(c.Limits) }
-		state, fin, timedOut := gstate.WaitBlocked("chans.RecvQueued", isDone, 20*time.Second, "chan receive", "select")
+		state, fin, timedOut := gstate.WaitBlocked("chans.RecvQueued", isDone, 20*time.Second, "chan receive", "select", "chan send")
 		if !fin {
 			if !c.Closed {
 				func() {
 					defer func() { recover() }()
 					close(ch) // frees the blocked call
 				}()
+			}
+			if c.Separate {
+				// nothing of ours can free a call that blocks on something of its own: leave it behind (the unit is Crashy: the process ends)
+				if timedOut {
+					return pbt.Outcome{Inconclusive: "overlapping RecvQueued calls neither returned nor were seen blocked"}
+				}
+				return pbt.Fail("repetition %d: a RecvQueued* call blocked (goroutine state %q) while %d calls overlapped in time, each on its own channel holding %d values: it must never block", rep, state, len(c.Limits), c.Fill)
 			}
 			wg.Wait()
 			if timedOut {
@@ -342,6 +366,23 @@ func RunQueuedConc(c CCase) pbt.Outcome {
 			return pbt.Fail("repetition %d: a RecvQueued* call blocked (goroutine state %q) while %d calls with limits %v drained a channel holding %d values concurrently: it must never block", rep, state, len(c.Limits), c.Limits, c.Fill)
 		}
 		wg.Wait()
+		if c.Separate {
+			for i, r := range results {
+				want := min(c.Fill, max(c.Limits[i], 0))
+				if len(r) != want {
+					return pbt.Fail("repetition %d: caller %d of %d overlapping calls (each on its own channel holding %d values) got %d values with limit %d, want %d", rep, i, len(c.Limits), c.Fill, len(r), c.Limits[i], want)
+				}
+				for k, v := range r {
+					if v != (k+1)*7 {
+						return pbt.Fail("repetition %d: caller %d of %d overlapping calls on separate channels got %d at position %d, want %d (results must not mix)", rep, i, len(c.Limits), v, k, (k+1)*7)
+					}
+				}
+				if len(chOf(i)) != c.Fill-want {
+					return pbt.Fail("repetition %d: caller %d's own channel holds %d values afterwards, want %d", rep, i, len(chOf(i)), c.Fill-want)
+				}
+			}
+			continue
+		}
 		seen := map[int]int{}
 		total := 0
 		for i, r := range results {
@@ -382,14 +423,29 @@ func RunQueuedConc(c CCase) pbt.Outcome {
 			return pbt.Fail("repetition %d: values that were never sent appeared: results %v, left in channel %v", rep, results, rest)
 		}
 	}
-	return pbt.Outcome{Evals: c.Reps, NonTrivial: len(c.Limits) >= 2 && c.Fill >= 2, Labels: []string{fmt.Sprintf("callers=%d", len(c.Limits))}}
+	lab := fmt.Sprintf("callers=%d", len(c.Limits))
+	if c.Separate {
+		lab = fmt.Sprintf("separate-channels,callers>=%d", len(c.Limits)/16*16)
+	}
+	return pbt.Outcome{Evals: c.Reps, NonTrivial: len(c.Limits) >= 2 && c.Fill >= 2, Labels: []string{lab}}
 }
 
 var specQueuedConc = pbt.Register(&pbt.Spec[CCase]{
 	Property: "C19", Name: "C19.queuedconc",
-	Rule: "2..4 goroutines call RecvQueued / RecvQueuedFull on the same channel at the same time (capacity 1..8, any fill, open or closed, limits 0..10), 40 repetitions: no call may block (goroutine-state classifier), " +
+	Rule: "2..4 goroutines call RecvQueued / RecvQueuedFull on the same channel at the same time (capacity 1..8, any fill, open or closed, limits 0..10), 40 repetitions, or 3..64 goroutines each on its own channel (capacity 8..400) overlapping in time: no call may block (goroutine-state classifier), " +
 		"each result is in FIFO order, and results plus what is left in the channel are exactly the queued values, each once; non-trivial = >=2 callers and >=2 queued values",
 	Gen: func(t *rapid.T) CCase {
+		if rapid.IntRange(0, 5).Draw(t, "separate?") == 3 {
+			n := rapid.SampledFrom([]int{3, 17, 24, 40, 64}).Draw(t, "callers")
+			cp := rapid.SampledFrom([]int{8, 100, 400}).Draw(t, "cap")
+			if rapid.IntRange(0, 3).Draw(t, "long?") == 2 {
+				// long drains on more Ps than cores, so that the OS interleaves many calls that are in flight at once
+				return CCase{Cap: 60000, Fill: 60000, Separate: true, Limits: rapid.SliceOfN(rapid.Just(100000), 64, 64).Draw(t, "limits"), Procs: 64, Reps: 2}
+			}
+			return CCase{Cap: cp, Fill: rapid.IntRange(cp/2, cp).Draw(t, "fill"), Closed: rapid.Bool().Draw(t, "closed"), Separate: true,
+				Limits: rapid.SliceOfN(rapid.SampledFrom([]int{1, 50, 1000}), n, n).Draw(t, "limits"), Full: rapid.IntRange(0, 3).Draw(t, "full") == 2,
+				Procs: rapid.SampledFrom([]int{4, 16, 64}).Draw(t, "procs"), Reps: 6}
+		}
 		cp := rapid.IntRange(1, 8).Draw(t, "cap")
 		n := rapid.IntRange(2, 4).Draw(t, "callers")
 		return CCase{Cap: cp, Fill: rapid.IntRange(0, cp).Draw(t, "fill"), Closed: rapid.Bool().Draw(t, "closed"),
